@@ -224,18 +224,31 @@ theorem C06_idle_trace (m : Model) (p : Params) (fuel : Nat) (s : St)
     simpa [workingAt] using hwk
   exact C06_idle_step m p (updated m s0) hwork hinv.1 hinv.2 w t hw hfree ht hst hna hnf
 
-/-- **C06 (c)** at every `ticked` state of `simulate m p s` produced by a working step (run with
-`init_state=True` from a state with nothing allocated outside the model's index ranges — the
-hypothesis under which C03 establishes the allocation invariant). -/
-theorem C06_idle_run (m : Model) (p : Params) (s : St)
-    (hp : p.initState = true) (hc : OutClean m s.live) :
+/-- **C06 (c)** at every `ticked` state of `simulate m p s` produced by a working step, for a run
+with `init_state=True` from ANY state `s` (`initialize` resets every allocation list, so C03
+establishes the allocation invariant without any hypothesis on the state before): a worker that
+is left FREE after a working step could not have been added to any READY/WORKING task it is
+skilled and targeted for. -/
+theorem C06_idle_run' (m : Model) (p : Params) (s : St) (hp : p.initState = true) :
     ∀ s' ∈ runTrace m p s, workingAt p (s'.time - 1) = true →
       ∀ w t, w < m.nW → s'.live.wstate w = .free → t < m.nT →
         (s'.live.tstate t = .ready ∨ s'.live.tstate t = .working) →
         (m.task t).isAuto = false → (m.task t).needFac = false →
         ¬ (hasSkill (m.worker w).skills (m.task t).name = true ∧ teamTargets m w t = true ∧
            canAdd m s'.live t (some w) Option.none = true) :=
-  C06_idle_trace m p _ _ (C03_init_partial hp hc)
+  C06_idle_trace m p _ _ (C03_init hp)
+
+/-- `C06_idle_run'` with the (no longer needed) hypothesis that nothing is allocated outside the
+model's index ranges; kept under its old name and statement. -/
+theorem C06_idle_run (m : Model) (p : Params) (s : St)
+    (hp : p.initState = true) (_hc : OutClean m s.live) :
+    ∀ s' ∈ runTrace m p s, workingAt p (s'.time - 1) = true →
+      ∀ w t, w < m.nW → s'.live.wstate w = .free → t < m.nT →
+        (s'.live.tstate t = .ready ∨ s'.live.tstate t = .working) →
+        (m.task t).isAuto = false → (m.task t).needFac = false →
+        ¬ (hasSkill (m.worker w).skills (m.task t).name = true ∧ teamTargets m w t = true ∧
+           canAdd m s'.live t (some w) Option.none = true) :=
+  C06_idle_run' m p s hp
 
 namespace C06Ex
 
@@ -303,6 +316,7 @@ example :
 #print axioms C06_idle
 #print axioms C06_idle_step
 #print axioms C06_idle_trace
+#print axioms C06_idle_run'
 #print axioms C06_idle_run
 
 end PDesy
